@@ -83,6 +83,9 @@ def check(prog, rep, tier):
     rep.rule('R08.f', 'flowspec operator octet (encoder side, both flowspec families): for value sizes 1..8 and every '
                       'flag combination the length code written announces exactly the number of value octets that '
                       'follow, or the size is refused loudly')
+    rep.rule('R08.g', 'NLRI length covers the label stack: where an NLRI encoder takes its label octets from '
+                      'construct_mpls_label_stack (3 octets per label, any depth), the 1-octet NLRI length it packs is '
+                      'computed from len() of those octets, not from a fixed label size')
     rep.rule('R08.e', 'fail loudly: every construct function returns bytes or raises on every path (no implicit None)')
     rep.assumptions += ['values that overflow their field after slicing and the 4096 total size are not decided',
                         'loops over input collections are checked for 0 and 1 element (length arithmetic is linear)']
@@ -853,6 +856,9 @@ def tlv_walks(prog, rep, results):
     else:
         rep.undecided('R08.c', key, found='no capability path')
 
+    # ---------------------------------------------------------------- R08.g
+    label_stack_in_length(prog, rep)
+
     # ---------------------------------------------------------------- R08.f
     from .c07 import operator_octet
     for fsq in ('yabgp.message.attribute.nlri.ipv4_flowspec.IPv4FlowSpec',
@@ -871,3 +877,36 @@ def run_capability(prog, f, code, clen):
     h.fields['capa_length'] = Const(clen)
     h.fields['capa_value'] = Opaque('capa_value')
     return ip.call_func(FuncV(f, o), [Opaque('my_capability')], {}, st)
+
+
+
+def label_stack_in_length(prog, rep):
+    n = 0
+    for f in prog.all_functions():
+        if not f.module.name.startswith('yabgp.message.attribute.nlri'):
+            continue
+        lab = [a for a in ast.walk(f.node) if isinstance(a, ast.Assign) and isinstance(a.value, ast.Call) and
+               src_of(a.value.func).endswith('construct_mpls_label_stack') and isinstance(a.targets[0], ast.Name)]
+        if not lab:
+            continue
+        var = lab[0].targets[0].id
+        packs = [c for c in ast.walk(f.node) if isinstance(c, ast.Call) and src_of(c.func) == 'struct.pack' and c.args
+                 and isinstance(c.args[0], ast.Constant) and c.args[0].value == '!B' and len(c.args) == 2
+                 and not isinstance(c.args[1], ast.Constant)]
+        for c in packs:
+            txt = common.unalias(f.node, c.args[1])
+            if 'len' not in txt and 'prefix' not in txt and 'mask' not in txt:
+                continue            # some other 1-octet field
+            n += 1
+            key = 'nlri-length:%s' % f.qualname.split('yabgp.message.attribute.nlri.')[-1]
+            covered = any(isinstance(x, ast.Call) and src_of(x.func) == 'len' and var in src_of(x)
+                          for x in ast.walk(ast.parse(txt, mode='eval')))
+            if covered:
+                rep.ok('R08.g', key, file=f.file, line=c.lineno, found=txt[:80])
+            else:
+                rep.bad('R08.g', key, file=f.file, line=c.lineno, func=f.qualname,
+                        found='the NLRI length is %s: the size of %s (3 octets per label) is not in it, so a stack of '
+                              'two or more labels is longer than the length announces and the next route is read from '
+                              'the middle of this one' % (txt[:80], var),
+                        expected='len(%s) * 8 in the length' % var, key=key)
+    rep.floor('R08.g', 'NLRI encoders with a label stack', n, 2)
